@@ -39,9 +39,9 @@ If one chooses imaginary :math:`dt`, the exponential projects
 """
 # Copyright (C) TeNPy Developers, Apache license
 
+import collections.abc
 import logging
 import time
-import typing
 import warnings
 
 import numpy as np
@@ -873,7 +873,7 @@ class RandomUnitaryEvolution(TEBDEngine):
             distribution_func_kwargs : dict
                 Extra keyword arguments for `distribution_func`.
         """
-        func = self.options.get('distribution_func', 'CUE', [str, typing.Callable])
+        func = self.options.get('distribution_func', 'CUE', [str, collections.abc.Callable])
         if isinstance(func, str):
             if func not in ['CUE', 'CRE', 'COE', 'O_close_1', 'U_close_1']:
                 raise ValueError('distribution_func should generate unitaries')
